@@ -6,3 +6,30 @@ From CiwV Require Import Sx Acc.C01.
 Theorem C01_sound : forall tr st, C01.acc tr = Accept st -> C01.P_C01 tr.
 Proof. exact C01.C01_sound. Qed.
 Print Assumptions C01_sound.
+
+(* ---- T2: the engine model (coq/Engine, tied to /repo by the stepwise correspondence check K2) preserves conservation ---- *)
+From CiwV.Engine Require Import State Engine Codec.
+From CiwV.Inv Require Import Frame Conserve ConserveRun.
+
+(* one executed event, for every configuration, every state satisfying the invariant and every oracle of draws *)
+Theorem event_step_conserves : forall cf s s', Conserve.WFx nil s -> Engine.event_step cf s = Ok (tt, s') -> Conserve.WFx nil s'.
+Proof. exact Conserve.event_step_conserves. Qed.
+Print Assumptions event_step_conserves.
+
+(* any number of events *)
+Theorem run_many_conserves : forall cf ds s s', Conserve.WFx nil s -> Codec.run_many cf s ds = Ok s' -> Conserve.WFx nil s'.
+Proof. exact ConserveRun.run_many_conserves. Qed.
+Print Assumptions run_many_conserves.
+
+(* what the invariant says, in the words of the property *)
+Theorem WFx_means : forall s, Conserve.WFx nil s ->
+  Permutation.Permutation (ConserveRun.ids_of s) (Prelude.zseq 1 (Z.to_nat (a_created (arr s)))) /\ NoDup (ConserveRun.ids_of s) /\
+  (forall nd, In nd (nodes s) -> n_pop nd = Prelude.zlen (Engine.all_individuals nd)) /\ exit_n s = Prelude.zlen (exit_ids s) /\
+  a_created (arr s) = (Prelude.zsum (map n_pop (nodes s)) + exit_n s)%Z.
+Proof. exact ConserveRun.WFx_means. Qed.
+Print Assumptions WFx_means.
+
+(* the executable test used by the correspondence check on the real engine's snapshots is sound for the invariant *)
+Theorem wfx_b_sound : forall s, ConserveRun.wfx_b s = true -> Conserve.WFx nil s.
+Proof. exact ConserveRun.wfx_b_sound. Qed.
+Print Assumptions wfx_b_sound.
